@@ -40,6 +40,12 @@ class Valuation:
           if a.kind == "abs" and len(a.args) == 1:
             term *= abs(self.value(a.args[0])) ** e
             continue
+          if a.kind == "bitlen" and len(a.args) == 1:
+            inner = self.value(a.args[0])
+            if inner.denominator != 1:
+              raise Unknown("bit_length of a non-integer")
+            term *= Fraction(abs(int(inner)).bit_length()) ** e
+            continue
           raise Unknown("term %r is not a comparison operand of the fragment" % (a,))
         term *= Fraction(self.assign[a]) ** e
       tot += term
@@ -78,7 +84,7 @@ def leaf_atoms(p):
   """Top-level atoms of p with min / max / abs opened up (their operands are ordinary comparison operands)."""
   out = set()
   for a in as_poly(p).atoms():
-    if a.kind in ("min", "max", "abs"):
+    if a.kind in ("min", "max", "abs", "bitlen") and all(isinstance(x, (Poly, Const)) for x in a.args) and (a.kind != "bitlen" or open_bitlen(a)):
       for x in a.args:
         if isinstance(x, Const):
           continue
@@ -86,6 +92,13 @@ def leaf_atoms(p):
     else:
       out.add(a)
   return out
+
+
+def open_bitlen(a):
+  """bit_length of a plain operand that is itself compared elsewhere is evaluated from that operand; bit_length of an opaque term stays an atom."""
+  x = a.args[0]
+  xa = as_poly(x).as_atom() if isinstance(x, Poly) else None
+  return xa is not None and xa.kind in ("param", "idx", "sym")
 
 
 def leaf_consts(p):
